@@ -35,6 +35,10 @@ void harness(void)
   }
   va[VERIF_NVEC] = NULL;
   vb[VERIF_NVEC] = NULL;
+  size_t na0 = na, nb0 = nb;
+  char sa0[VERIF_NVEC][3], sb0[VERIF_NVEC][3];
+  memcpy(sa0, sa, sizeof(sa0));
+  memcpy(sb0, sb, sizeof(sb0));
   /* either vector may also be absent */
   char *const *a = nondet_bool() ? NULL : va;
   const char *const *b = nondet_bool() ? NULL : vb;
@@ -47,8 +51,19 @@ void harness(void)
   int faults0 = g.e.faults;
   char **r = strv_concat(a, b);
 
-  V_ASSERT("C04+C05/strv_concat.null_only_when_allocation_failed",
+  V_ASSERT("C04+C05+C06/strv_concat.null_only_when_allocation_failed",
            IMPLIES(r == NULL, g.e.faults > faults0 && g.e.err == ENOMEM));
+  {
+    /* C12: the caller's vectors (the parent's environ among them) are read, never
+       written or released - on success and on failure alike */
+    bool same = true;
+    for (size_t i = 0; i < VERIF_NVEC; i++) {
+      if (va[i] != (i < na0 ? sa[i] : NULL) || vb[i] != (i < nb0 ? sb[i] : NULL)) same = false;
+      if (sa[i][0] != sa0[i][0] || sa[i][1] != sa0[i][1] || sa[i][2] != '\0') same = false;
+      if (sb[i][0] != sb0[i][0] || sb[i][1] != sb0[i][1] || sb[i][2] != '\0') same = false;
+    }
+    V_ASSERT("C03+C12/strv_concat.callers_vectors_untouched", same && va[VERIF_NVEC] == NULL && vb[VERIF_NVEC] == NULL);
+  }
   if (r != NULL) {
     bool ok = true;
     for (size_t i = 0; i < VERIF_NVEC; i++) {
